@@ -436,7 +436,24 @@ def qr_move_scu(asce, ctx, ds, dest_ae, msg_id):
             break
 
 
+def _conclude_move_on_error(service):
+    """C-MOVE is concluded with a final response also when handler signals
+    an error, destination can not be reached or does not take an instance."""
+    def wrapper(asce, ctx, msg):
+        try:
+            service(asce, ctx, msg)
+        except exceptions.NetDICOMError:
+            rsp = dimsemessages.CMoveRSPMessage()
+            rsp.message_id_being_responded_to = msg.message_id
+            rsp.sop_class_uid = msg.sop_class_uid
+            rsp.status = int(statuses.C_MOVE_UNABLE_TO_PROCESS)
+            asce.send(rsp, ctx.id)
+    wrapper.__doc__ = service.__doc__
+    return wrapper
+
+
 @sop_classes(MOVE_SOP_CLASSES)
+@_conclude_move_on_error
 def qr_move_scp(asce, ctx, msg):
     """Query/Retrieve C-MOVE service implementation.
 
